@@ -280,7 +280,32 @@ class Prop:
                 line = 'stext ' + hx(lay.text(m))
                 self.models[line] = m
                 cs.append(Case(line, 'layout-%d' % j, meta='m%d' % i))
+        # counting rules at the edge of the machine integers: whatever is accepted must be reported as written
+        self.may_reject = set()
+        edges = sorted(set([2 ** k + d for k in (31, 32, 63, 64) for d in range(-2, 13)] + [10 ** 19, 10 ** 19 + 7, 2 ** 64 * 10, 2 ** 64 * 10 + 3, 10 ** 20 - 1, 2 ** 65 + 1, 2 ** 128 + 2]))
+        subjects = [('minLength', lambda r: ('L', '"abc"', (r, ''))), ('maxLength', lambda r: ('L', '"abc"', (r, 'n'))), ('precision', lambda r: ('L', '1.5', (r, ''))),
+                    ('minItems', lambda r: ('A', (r, ''), [('L', '1', ([], '')), ('L', '2', ([], ''))])), ('maxItems', lambda r: ('A', (r, ''), [('L', '1', ([], '')), ('L', '2', ([], ''))]))]
+        for name, mk in subjects:
+            for v in edges:
+                for wrap in (False, True):
+                    rules = [(name, ('s', str(v)))]
+                    if wrap and name in ('minLength', 'maxLength'):
+                        rules = [('or', ('l', [('o', [('type', ('s', '"string"'))] + rules), ('s', '"integer"')]))]
+                    elif wrap:
+                        continue
+                    m = mk(rules)
+                    for j, lay in enumerate(layouts(rng)[:2]):
+                        line = 'stext ' + hx(lay.text(m))
+                        self.models[line] = m
+                        self.may_reject.add(line)
+                        cs.append(Case(line, 'integer-edge'))
         return cs
+
+    may_reject = set()
+
+    def model_lines(self, lines, impl):
+        # the parser model has no machine integers: it is not asked about rule values at their edge
+        return [None if l in self.may_reject else l for l in lines]
 
     def run_impl(self, lines):
         texts = [l.split(' ')[1] for l in lines]
@@ -313,6 +338,8 @@ class Prop:
             return None
         want = 'ok ast=' + norm_allof(d_node(m))
         if out.startswith('rej'):
+            if case.line in self.may_reject:
+                return None      # the example may break the rule, or the value may not fit: refusing is fine, misreporting is not
             return 'a valid schema is rejected: ' + out[:60]
         if out != want:
             return 'GetAST() differs from the source: %s vs %s' % (out[:160], want[:160])
